@@ -260,7 +260,7 @@ pub fn run(ctx: &Ctx) {
         };
         v.into_iter()
     }, true, true);
-    let n = ctx.n(3_000_000, 30_000_000);
+    let n = ctx.n(3_000_000, 100_000_000);
     ctx.run_prop(&Date, n);
     ctx.run_prop(&Time, n);
     ctx.run_prop(&DateTimeText, n);
